@@ -173,6 +173,11 @@ impl Axecutor {
         addr
     }
 
+    /// The offset part of the effective address, i.e. without the segment base (this is what LEA returns)
+    pub(crate) fn mem_offset(&self, o: MemOperand) -> u64 {
+        self.mem_addr(MemOperand { segment: None, ..o })
+    }
+
     pub(crate) fn instruction_operands_2(
         &self,
         i: Instruction,
